@@ -31,6 +31,8 @@ def bounds(tier, seed):
 
 
 def replay(case):
+    if case.get("kind") == "kernel":
+        return _replay(case)
     return M.only(PREFIX, _replay(case))
 
 
